@@ -495,6 +495,7 @@ impl<K: KeyT, V: ValT> World<K, V> {
                 }
             }
             Op::Probe { m, max } => self.op_probe(acc, *m as usize, *max),
+            Op::SerdeMap { .. } | Op::SerdeSet { .. } => crate::c16::dispatch_serde(self, acc, op),
             _ => self.dispatch_set(acc, op),
         }
     }
